@@ -644,12 +644,20 @@ def run(db: DB, rep: Report) -> None:
                 if g_ is not None and g_ is not bt13:
                     scopes.append(g_.node)
         ok13 = any(_format_filter(sc) for sc in scopes)
+        # a binding handed whole to code outside the Collector may be filtered there: cannot tell
+        tgt13 = {x.id for x in ast.walk(it13.target) if isinstance(x, ast.Name)}
+        handed_out = any(isinstance(c_, ast.Call) and any(isinstance(a_, ast.Name) and a_.id in tgt13 for a_ in c_.args)
+                         and not (isinstance(c_.func, ast.Attribute) and c_.func.attr in C.methods)
+                         and not (isinstance(c_.func, ast.Attribute) and c_.func.attr in ("append", "add"))
+                         for c_ in ast.walk(holder))
+        plain_iter = bool(_re13.fullmatch(r"\w+\.get_bindings\(\)\[\w+\]", norm(it13.iter)))
         rep.check("T13", ok13, db.loc(it13.iter), bt13.short, "bindings-of-selected-format",
                   "bindings are kept only if binding['format'] is the format get_loop_formats() selected",
                   "Collector.__build_traffic takes every binding of the buffer (%s), also those that name a "
                   "format of the tensor the loop nest does not use: their traces are never registered "
                   "(Metrics.__build_traffic_paths walks the selected format only), so the dump hands "
-                  "Traffic.filterTrace / the traces dictionary file names nothing produced" % norm(it13.iter)[:60])
+                  "Traffic.filterTrace / the traces dictionary file names nothing produced" % norm(it13.iter)[:60],
+                  decided=ok13 or (plain_iter and not handed_out))
     if n_t13 < 1:
         rep.undecided("T13", db.loc(bt13.node), bt13.short, "no loop over the buffer's bindings found")
 
